@@ -819,8 +819,10 @@ where
     V::AggregationParam: Sync,
 {
     let n = inst.domain.len();
-    let kmax = run.pick(4, 5);
-    let budget = run.pick(1_200_000usize, 25_000_000) * weight;
+    // weight 0 = light plan (very long Poplar1 inputs, where every call handles 8 KiB prefixes): k <= 2 (thorough 3)
+    let light = weight == 0;
+    let kmax = if light { run.pick(2, 3) } else { run.pick(4, 5) };
+    let budget = if light { run.pick(4_000usize, 60_000) } else { run.pick(1_200_000usize, 25_000_000) * weight };
     let mut batches = vec![];
     for k in 0..=kmax {
         let cap = (budget / cost(k)).max(n);
@@ -828,7 +830,7 @@ where
         batches.push(Batch { cfg: Cfg { k, max_live: k + 1, max_empty: 2, label: "tree" }, tups, full });
     }
     // linear chains over more shares: at most two live aggregates
-    for k in run.pick(vec![6], vec![6, 7]) {
+    for k in if light { vec![3] } else { run.pick(vec![6], vec![6, 7]) } {
         let (tups, full) = tuples(n, k, run.pick(2 * n, 4 * n).max(10));
         batches.push(Batch { cfg: Cfg { k, max_live: 2, max_empty: 1, label: "chain" }, tups, full });
     }
@@ -855,8 +857,13 @@ fn main() {
     let mut pops: Vec<(usize, usize, usize)> = vec![(1, 0, 1), (1, 0, 2), (2, 0, 1), (2, 0, 2), (2, 1, 1), (2, 1, 2), (2, 1, 3), (3, 0, 2), (3, 1, 1), (3, 1, 2), (3, 1, 3), (3, 2, 1), (3, 2, 2), (3, 2, 3)];
     // long inputs: levels whose low 8 bits coincide with those of the leaf level must still be inner
     pops.extend([(257, 0, 2), (257, 256, 1), (258, 1, 3), (258, 255, 1), (258, 256, 2), (258, 257, 1), (258, 257, 3)]);
+    // the longest admissible inputs: level arithmetic at the u16 boundary (leaf level 65535)
+    pops.extend([(65536, 65535, 1), (65536, 65534, 2), (65535, 65534, 1), (256, 255, 1), (256, 254, 2)]);
+    if !run.quick() {
+        pops.extend([(65536, 65535, 2), (65536, 255, 1), (65536, 0, 1), (65535, 65533, 2)]);
+    }
     for (bits, level, np) in pops {
-        insts.push(plan(run, poplar_inst(bits, level, np), 1));
+        insts.push(plan(run, poplar_inst(bits, level, np), if bits > 1000 { 0 } else { 1 }));
     }
     // Prio3 over deployed fields
     insts.push(plan(run, prio3_inst(count_case::<Field64>(), 1, false), 1));
